@@ -815,7 +815,7 @@ func runITERLAZY(c *Ctx) {
 // child that hangs between those entries.
 
 func init() {
-	Register(&Rule{ID: "ITERALL", Props: []string{"C10", "C01"}, Min: 2,
+	Register(&Rule{ID: "ITERALL", Props: []string{"C10", "C01"}, Min: 1,
 		Doc: "in the node walk under Iter and SeekIter, every loop that delivers a node's entries (calls the entry callback with node.Key[i], node.Value[i]) also visits that node's links in the same loop " +
 			"(reads node.Link[…] and hands it to a call that can load): between two delivered entries the subtree between them is walked.",
 		Run: runITERALL})
@@ -840,9 +840,12 @@ func runITERALL(c *Ctx) {
 			continue
 		}
 		for _, b := range fn.Blocks {
-			if !inCycle(b) || ir.IsDead(b) {
+			if ir.IsDead(b) {
 				continue
 			}
+			// a delivery outside every loop (the per-slot body extracted into a helper; seekIter's first entry):
+			// "the same loop" is then the function itself
+			looped := inCycle(b)
 			for _, ins := range b.Instrs {
 				call, ok := ins.(*ssa.Call)
 				if !ok || ir.ResolveCell(call.Call.Value) != ssa.Value(cb) || len(call.Call.Args) != 2 {
@@ -864,7 +867,7 @@ func runITERALL(c *Ctx) {
 				visits := false
 				fromB := ir.ReachableFrom(b, nil)
 				for _, b2 := range fn.Blocks {
-					if !fromB[b2] || !ir.ReachableFrom(b2, nil)[b] {
+					if looped && (!fromB[b2] || !ir.ReachableFrom(b2, nil)[b]) {
 						continue // not in the same cycle
 					}
 					for _, i2 := range b2.Instrs {
@@ -900,7 +903,7 @@ func runITERALL(c *Ctx) {
 				// and some call of the loop can load (the visit is not just a nil test)
 				loads := false
 				for _, b2 := range fn.Blocks {
-					if !fromB[b2] || !ir.ReachableFrom(b2, nil)[b] {
+					if looped && (!fromB[b2] || !ir.ReachableFrom(b2, nil)[b]) {
 						continue
 					}
 					for _, i2 := range b2.Instrs {
@@ -909,6 +912,16 @@ func runITERALL(c *Ctx) {
 								if c.Facts.MayLoad[callee] {
 									loads = true
 								}
+							}
+						}
+					}
+				}
+				if !visits && !looped && loads {
+					// the extracted per-slot body is handed the link itself
+					for _, p := range fn.Params {
+						if _, isIface := p.Type().Underlying().(*types.Interface); isIface && !ir.IsErrorType(p.Type()) && p.Referrers() != nil && len(*p.Referrers()) > 0 {
+							if !strings.Contains(p.Type().String(), "Context") {
+								visits = true
 							}
 						}
 					}
